@@ -426,10 +426,22 @@ func (in *c07Inst) handler(reg *c07Reg) network.StreamHandler {
 		}
 		// (an hour of VIRTUAL time: streams held open in the background while other opens are probed must not run
 		// into it; every stream is closed or reset by the dialer, at the latest when the hosts are closed)
-		_ = s.SetReadDeadline(time.Now().Add(time.Hour))
-		if _, err := io.Copy(io.Discard, s); err != nil {
-			s.Reset()
-			return
+		// every further nonce-sized request is echoed as well (the idle probe makes a second exchange on the same
+		// stream, see c07ProbeOpt.late); a dialer that only closes is answered by a close as before
+		for {
+			_ = s.SetReadDeadline(time.Now().Add(time.Hour))
+			n, err := io.ReadFull(s, nonce[:])
+			if err == io.EOF || err == io.ErrUnexpectedEOF {
+				break
+			}
+			if err != nil {
+				s.Reset()
+				return
+			}
+			if _, err := s.Write(nonce[:n]); err != nil {
+				s.Reset()
+				return
+			}
 		}
 		s.Close()
 	}
